@@ -7,20 +7,22 @@ import "strings"
 // goroutines - two per kind, on t1 and on t2 - started together, three repetitions (see exec_conc.go).
 
 func concModelFrame() Step {
-	n := 12
+	n := 24
 	a, p := make([]int64, n), make([]int64, n)
+	y := make([]*BS, n)
 	f := make([]string, n)
 	b := make([]bool, n)
 	s, x := make([]*BS, n), make([]*BS, n)
 	for i := 0; i < n; i++ {
 		a[i], p[i], f[i], b[i] = int64(i%5-1), int64((i*7)%n), itoa(i%4)+".5", i%3 == 0
 		s[i], x[i] = bsp([]string{"ab", "Ab", "ba", "", "xaby"}[i%5]), bsp([]string{"lo", "mid", "hi"}[i%3])
+		y[i] = bsp("y" + itoa(i%20)) // an enum with more values than fit a small linear scan
 	}
 	s[4], x[7], f[2] = nil, nil, "NaN"
-	return Step{Op: "New", Recv: -1, HasOrder: true, ColOrder: bsList([]string{"A", "F", "B", "S", "X", "P"}), HasEnums: true,
-		Enums: []EnumDecl{{Name: toBS("X"), Vals: nil}},
+	return Step{Op: "New", Recv: -1, HasOrder: true, ColOrder: bsList([]string{"A", "F", "B", "S", "X", "P", "Y"}), HasEnums: true,
+		Enums: []EnumDecl{{Name: toBS("X"), Vals: nil}, {Name: toBS("Y"), Vals: nil}},
 		Data: []ColData{{Name: toBS("A"), Kind: "int", Ints: a}, {Name: toBS("F"), Kind: "float", Floats: f}, {Name: toBS("B"), Kind: "bool", Bools: b},
-			{Name: toBS("S"), Kind: "string", Strs: s}, {Name: toBS("X"), Kind: "string", Strs: x}, {Name: toBS("P"), Kind: "int", Ints: p}}}
+			{Name: toBS("S"), Kind: "string", Strs: s}, {Name: toBS("X"), Kind: "string", Strs: x}, {Name: toBS("P"), Kind: "int", Ints: p}, {Name: toBS("Y"), Kind: "string", Strs: y}}}
 }
 
 func concModelOp(kind string, recv int, tag string) Step {
@@ -32,6 +34,8 @@ func concModelOp(kind string, recv int, tag string) Step {
 		return Step{Op: "Filter", Recv: recv, Clause: leaf("S", "ilike", &Val{T: "string", S: toBS("%AB%")})}
 	case "FilterInt":
 		return Step{Op: "Filter", Recv: recv, Clause: leaf("A", ">", &Val{T: "int", I: 0})}
+	case "FilterEnum":
+		return Step{Op: "Filter", Recv: recv, Clause: leaf("Y", []string{"=", "<", ">="}[len(tag)%3], &Val{T: "string", S: toBS("y7")})}
 	case "FilterOr":
 		return Step{Op: "Filter", Recv: recv, Clause: &Clause{K: "or", Subs: []Clause{{K: "and", Subs: []Clause{*leaf("A", "<", &Val{T: "int", I: 1})}},
 			{K: "not", Subs: []Clause{*leaf("X", "=", &Val{T: "string", S: toBS("mid")})}}}}}
@@ -86,11 +90,11 @@ func (x *Exec) concModel(sc *Scenario, st *Step) {
 	var d Step
 	switch rel {
 	case "same":
-		d = Step{Op: "Slice", Recv: t1, A: 0, B: 12} // placeholder member; the batch works on t1 twice
+		d = Step{Op: "Slice", Recv: t1, A: 0, B: 24} // placeholder member; the batch works on t1 twice
 	case "slice":
-		d = Step{Op: "Slice", Recv: t1, A: 2, B: 10}
+		d = Step{Op: "Slice", Recv: t1, A: 2, B: 20}
 	case "select":
-		d = Step{Op: "Select", Recv: t1, Cols: bsList([]string{"P", "S", "X", "A", "F", "B", "rn"})}
+		d = Step{Op: "Select", Recv: t1, Cols: bsList([]string{"P", "S", "X", "A", "F", "B", "rn", "Y"})}
 	case "sorted":
 		d = Step{Op: "Sort", Recv: t1, Orders: []Order{{Col: toBS("P")}}}
 	case "filtered":
